@@ -122,6 +122,8 @@ CHECKS = {
         "level_note": "Trusted: SSA->SMT executor, bounded cooperative scheduler (no instruction-level races), FIFO semantics of Go channels as modelled, z3. "
                       "Bounds: <= 2 senders, <= 2 envelopes each, buffers {0,1}, P = 0 / 1; WebSocket: <= 2 messages, 1 / 2 fragmented reads, 1 stall. Real sockets, TLS, gorilla's framing itself (modelled at message level) and payload sizes are outside the claim.",
         "runs": [
+            {"harness": "HarnessC18WS", "params": {"sched": 1, "msgs": 1}, "reach": ["c18:wire-session-settled"], "threads": True},
+            {"harness": "HarnessC18WS", "params": {"sched": 1, "msgs": 1, "tcp": 1, "cclock": 1}, "reach": ["c18:wire-session-settled"], "threads": True},
             {"harness": "HarnessC19InProcSend", "reach": ["c19:inproc-peer-gone"]},
             {"harness": "HarnessC04Route", "reach": ["c04:receiver-ran"], "threads": True},
             {"harness": "HarnessC04Pipe", "grid": {"buf": [0, 1], "tbuf": [0, 1]}, "params": {"sched": 1, "senders": 1, "per": 2},
@@ -343,10 +345,13 @@ CHECKS = {
                       "sides, both connections are closed, dispatch loop and serving goroutine return, Finished fires once, and no goroutine is left. "
                       "Termination through Client.Close and Server.Close is covered by the C19 and C18 runs listed here. WebSocket: a server channel over the gorilla "
                       "model finishes its session while an application send is stuck in the socket (client not reading): both calls return, nothing panics "
-                      "(gorilla panics on concurrent writers), the connection is released.",
+                      "(gorilla panics on concurrent writers), the connection is released. One whole server-side session over the WebSocket and the TCP "
+                      "transport (HarnessC18WS, see C18) ends with 'finished' on the wire and the connection closed.",
         "level_note": "Trusted: SSA->SMT executor, bounded cooperative scheduler (no instruction-level races), z3. Bounds: one session, <= 1 in-flight envelope "
                       "per direction, buffers {0,1}; pre-emptions only in the dedicated race harnesses (P <= 2 / 3). TLS and gorilla's internals (a model) are outside the claim.",
         "runs": [
+            {"harness": "HarnessC18WS", "params": {"sched": 1, "msgs": 1}, "reach": ["c18:wire-session-settled"], "threads": True},
+            {"harness": "HarnessC18WS", "params": {"sched": 1, "msgs": 1, "tcp": 1, "cclock": 1}, "reach": ["c18:wire-session-settled"], "threads": True},
             {"harness": "HarnessC13Teardown", "grid": {"who": [0, 1, 2], "buf": [0, 1]}, "params": {"sched": 1, "tbuf": 1},
              "reach": ["c13:end-settled"], "threads": True, "tier": "quick"},
             {"harness": "HarnessC13Teardown", "grid": {"who": [0, 1, 2]}, "params": {"sched": 1, "tbuf": 0, "buf": 1},
